@@ -366,6 +366,39 @@ def handle (st : St) : List String → St × String
     match modeOf m, parseD d, parseTab tab with
     | some m, some d, some t => stepResp st t (.addChunkNew d m)
     | _, _, _ => (st, "bad-op")
+  -- chunk-COUNT family: `add_chunk(ChunkData::new(piece, m)?)` for every `k`-byte piece of `d`
+  -- (the slices of the same `while offset < len` loop), answered by the first answer that is not
+  -- `ok`; a request line of ~30 bytes reaches 65536 and more `add_chunk` calls
+  | ["chunks", m, d, k, tab] =>
+    match modeOf m, parseD d, k.toNat?, parseTab tab with
+    | some m, some d, some k, some t =>
+      if k = 0 then (st, "bad-op") else
+      let cd := codecOf t
+      (splitLoop k d.length d).foldl (fun (acc : St × String) pc =>
+        if acc.2 != "ok" then acc else
+        match acc.1.b with
+        | none => ({ acc.1 with b := none }, "dead")
+        | some b =>
+          match step cd b (.addChunkNew pc m) with
+          | .ok b' => ({ acc.1 with b := some b' }, "ok")
+          | .error e => ({ acc.1 with b := none }, errStr e))
+        ({ st with tab := st.tab ++ t }, "ok")
+    | _, _, _, _ => (st, "bad-op")
+  -- the table writers on `ChunkData::new` chunks of every `k`-byte piece of `d`:
+  -- `BlteFile::multi_chunk` (`std`) / `BlteHeader::multi_chunk_extended` (`ext`), answered with digests
+  | ["multi#", fmt, m, d, k, tab] =>
+    match modeOf m, parseD d, k.toNat?, parseTab tab with
+    | some m, some d, some k, some t =>
+      if k = 0 ∨ (fmt != "std" ∧ fmt != "ext") then (st, "bad-op") else
+      match newChunks (codecOf t) ((splitLoop k d.length d).map (·, m)) with
+      | .error e => (st, errStr e)
+      | .ok chunks =>
+        if fmt == "std" then (st, outFileDigest (codecOf t) (multiChunk Spec.Md5.md5 chunks))
+        else
+          match multiChunkExt (codecOf t) Spec.Md5.md5 chunks with
+          | .ok xf => (st, digestViews (codecOf t) (fun _ => none) (serializeX xf))
+          | .error e => (st, errStr e)
+    | _, _, _, _ => (st, "bad-op")
   | ["build"] =>
     match st.b with
     | none => ({ st with b := none }, "dead")
